@@ -35,9 +35,7 @@
 #include <unistd.h>
 #include <errno.h>
 #include <zck.h>
-#ifdef _WIN32
 #include <fcntl.h>
-#endif
 
 #include "zck_private.h"
 
@@ -209,6 +207,20 @@ int get_tmp_fd(zckCtx *zck) {
         set_error(zck, "Unable to create temporary file");
         return -1;
     }
+#ifndef _WIN32
+    /* The library uses 0 for "no temporary file", so if descriptor 0 happened
+     * to be free, move the temporary file to another descriptor */
+    if(temp_fd == 0) {
+        temp_fd = fcntl(0, F_DUPFD, 3);
+        close(0);
+        if(temp_fd < 0) {
+            unlink(fname);
+            free(fname);
+            set_error(zck, "Unable to create temporary file");
+            return -1;
+        }
+    }
+#endif
 #ifndef _WIN32
     // Files with open file handle cannot be removed on Windows
     if(unlink(fname) < 0) {
